@@ -1,4 +1,4 @@
-#!/bin/sh
+#!/bin/bash
 # tools/all_seeded.sh [seed] [parallel]  - run every seeded change against the check of its property
 # (quick tier, stopping at the first violation: VERIF_FAST_FAIL); one line per change: CAUGHT / MISSED.
 # Changes whose meta.json names another check (C04-f -> C11) are run against that check.
